@@ -1335,6 +1335,19 @@ func stdIntrinsic(name string, fn *ssa.Function) intrinsicFn {
 			}
 			return x.newSlice(elems, "sorted")
 		}
+	case strings.HasPrefix(name, "maps.Clone["):
+		return func(x *Exec, _ *ssa.Function, a []Value) Value {
+			m, _ := a[0].(*MapV)
+			if m == nil {
+				return (*MapV)(nil)
+			}
+			x.nobj++
+			n := &MapV{ID: x.nobj}
+			for _, e := range m.Entries {
+				n.Entries = append(n.Entries, &MapEntry{K: e.K, V: copyVal(e.V), Present: e.Present})
+			}
+			return n
+		}
 	case strings.HasPrefix(name, "slices.Clone["):
 		return func(x *Exec, _ *ssa.Function, a []Value) Value {
 			s, _ := a[0].(*SliceV)
